@@ -1,0 +1,37 @@
+//go:build verif
+
+package proxyutil
+
+// Contracts for govc (contract-based deductive verification, see /verif/DESIGN.md).
+// This file contains comments only and is compiled only with the build tag `verif`.
+
+//@ ghost var nWarn int
+//@ ghost var lastWarnHeader http.Header
+
+// NewResponse: a fresh, well-formed response for the request (used for 502 synthesis and skipped round trips).
+//@ func NewResponse
+//@   serves C01 C02 C03
+//@   modifies nothing
+//@   ensures[fresh-response] result != nil && fresh(result)
+//@   ensures[status-and-request] result.StatusCode == code && result.Request == req && result.Body != nil && result.Header != nil
+//@   ensures[protocol-copied-from-request] req != nil ==> result.Close == req.Close && result.Proto == req.Proto && result.ProtoMajor == req.ProtoMajor && result.ProtoMinor == req.ProtoMinor
+//@   ensures req == nil ==> !result.Close
+
+// Warning adds exactly one Warning value to the given header and touches nothing else of the message.
+//@ extern func (http.Header).Add
+//@   modifies header[*]
+//@ extern func (http.Header).Get
+//@ func Warning
+//@   serves C02 C03
+//@   requires err != nil
+//@   modifies header[*], nWarn, lastWarnHeader
+//@   ensures[one-warning-recorded] nWarn == old(nWarn) + 1 && lastWarnHeader == header
+//@   at entry 0 before set nWarn = nWarn + 1
+//@   at entry 0 before set lastWarnHeader = header
+
+//@ func GetRangeStart
+//@   serves C18
+//@   requires res != nil
+//@   modifies nothing
+//@   ensures[range-start-or-none] result >= 0 - 1
+//@   ensures res.StatusCode != 206 ==> result == 0
